@@ -160,19 +160,268 @@ end Gen.Defaults
 
 namespace Gen.Defaults
 
-theorem ident_case {g gv : Nat} {s : Bytes} {x : Option Extra}
-    (hs : g = gv ∨ identFree (.ident s x) = true) : g = gv ∨ x = none := by
-  rcases hs with h | h
-  · exact Or.inl h
-  · cases x with
-    | none => exact Or.inr rfl
-    | some x => simp [identFree] at h
+theorem hexDigit_lt {c : Nat} (hc : c < 48) : hexDigit? c = none := by
+  unfold hexDigit?
+  have : ¬(48 ≤ c ∧ c ≤ 57) := by omega
+  have : ¬(97 ≤ c ∧ c ≤ 102) := by omega
+  have : ¬(65 ≤ c ∧ c ≤ 70) := by omega
+  simp [*]
+
+theorem octDigit_lt {c : Nat} (hc : c < 48) : octDigit? c = none := by
+  unfold octDigit?
+  have : ¬(48 ≤ c ∧ c ≤ 55) := by omega
+  simp [*]
+
+theorem lexStep_num_none {b r a : Nat} {u : Bool} {c : Nat} (hc : c < 48 ∨ c = 92) : lexStep (.num b r a u) c = none := by
+  have h1 : hexDigit? c = none := by
+    rcases hc with hc | hc
+    · exact hexDigit_lt hc
+    · subst hc; decide
+  have h2 : octDigit? c = none := by
+    rcases hc with hc | hc
+    · exact octDigit_lt hc
+    · subst hc; decide
+  simp only [lexStep]
+  split <;> simp_all
+
+theorem escLookup_mem {c : Nat} {v : LexSt × Bytes} : ∀ {l : List (Nat × (LexSt × Bytes))}, escLookup c l = some v → (c, v) ∈ l
+  | [], h => by simp [escLookup] at h
+  | (k, w) :: r, h => by
+    simp only [escLookup] at h
+    by_cases hk : c = k
+    · simp only [hk, if_true, Option.some.injEq] at h
+      subst hk h
+      exact List.mem_cons_self
+    · simp only [hk, if_false] at h
+      exact List.mem_cons_of_mem _ (escLookup_mem h)
+
+def LexSt.isEsc : LexSt → Bool
+  | .esc => true
+  | _ => false
+
+theorem escTable_not_esc : ∀ p ∈ escTable, p.2.1.isEsc = false := by decide
+
+/-- a step from a state other than `esc` on a character other than a backslash never ends in `esc`; a step
+    from `esc` never does -/
+theorem lexStep_not_esc {st st' : LexSt} {c : Nat} {out : Bytes} (h : lexStep st c = some (st', out))
+    (hc : st = .esc ∨ c ≠ 92) : st' ≠ .esc := by
+  cases st with
+  | norm =>
+    have : c ≠ 92 := by rcases hc with h1 | h1; cases h1; exact h1
+    simp [lexStep, this] at h
+    intro he; rw [← h.1] at he; cases he
+  | esc =>
+    simp only [lexStep] at h
+    cases hl : escLookup c escTable with
+    | some r =>
+      simp only [hl, Option.some.injEq] at h
+      have := escTable_not_esc _ (escLookup_mem hl)
+      subst h
+      intro he
+      simp [he, LexSt.isEsc] at this
+    | none =>
+      simp only [hl] at h
+      cases ho : octDigit? c with
+      | none => simp [ho] at h
+      | some d =>
+        simp only [ho, Option.some.injEq, Prod.mk.injEq] at h
+        intro he; rw [← h.1] at he; cases he
+  | num b r a u =>
+    intro he
+    subst he
+    simp only [lexStep] at h
+    split at h
+    · cases h
+    · split at h
+      · split at h
+        · split at h <;> simp at h
+        · split at h <;> simp at h
+      · simp at h
+
+theorem unqFrom_cons {st : LexSt} {c : Nat} {r : Bytes} (h34 : ¬(st = .norm ∧ c = 34)) (h10 : ¬(st = .norm ∧ c = 10)) :
+    unqFrom st (c :: r) = (lexStep st c).bind fun p => (unqFrom p.1 r).map (p.2 ++ ·) := by
+  cases hl : lexStep st c with
+  | none => simp [unqFrom, h34, h10, hl]
+  | some p => obtain ⟨a, b⟩ := p; simp [unqFrom, h34, h10, hl]
+
+theorem unqFrom_norm_bslash (d : Nat) (r : Bytes) :
+    unqFrom .norm (92 :: d :: r) = (lexStep .esc d).bind fun p => (unqFrom p.1 r).map (p.2 ++ ·) := by
+  rw [unqFrom_cons (by simp) (by simp)]
+  have : lexStep .norm 92 = some (.esc, []) := by simp [lexStep]
+  rw [this]
+  simp only [Option.bind_some]
+  rw [unqFrom_cons (by simp) (by simp)]
+  cases lexStep .esc d with
+  | none => rfl
+  | some p => obtain ⟨a, b⟩ := p; simp [Function.comp_def]
+
+theorem interpFrom_cons (st : LexSt) (c : Nat) (r : Bytes) :
+    interpFrom st (c :: r) = (idlStep st c).bind fun p => (interpFrom p.1 r).map (p.2 ++ ·) := by
+  cases hl : idlStep st c with
+  | none => simp [interpFrom, hl]
+  | some p => obtain ⟨a, b⟩ := p; simp [interpFrom, hl]
+
+theorem idlStep_ne {st : LexSt} {c : Nat} (h : ¬(st = .esc ∧ c = 39)) : idlStep st c = lexStep st c := by
+  simp [idlStep, h]
+
+/-- the state after a non-`esc` state is `norm` or inside a numeric escape -/
+theorem not_esc_cases {st : LexSt} (h : st ≠ .esc) : st = .norm ∨ ∃ b r a u, st = .num b r a u := by
+  cases st with
+  | norm => exact Or.inl rfl
+  | esc => exact absurd rfl h
+  | num b r a u => exact Or.inr ⟨b, r, a, u, rfl⟩
+
+theorem norm_bslash : lexStep .norm 92 = some (.esc, []) := by simp [lexStep]
+theorem idl_norm_bslash : idlStep .norm 92 = some (.esc, []) := by simp [idlStep, lexStep]
+
+theorem interp_norm_bslash (d : Nat) (r : Bytes) :
+    interpFrom .norm (92 :: d :: r) = (idlStep .esc d).bind fun p => (interpFrom p.1 r).map (p.2 ++ ·) := by
+  rw [interpFrom_cons, idl_norm_bslash]
+  simp only [Option.bind_some]
+  rw [interpFrom_cons]
+  cases idlStep .esc d with
+  | none => rfl
+  | some p => obtain ⟨a, b⟩ := p; simp [Function.comp_def]
+
+/-- in a numeric escape, what `quoteLiteral` emits for a character it rewrites is invalid, as the character is -/
+theorem num_both_none {b k a : Nat} {u : Bool} {c : Nat} {out rest r : Bytes} (hc : c < 48 ∨ c = 92)
+    (hout : ∃ x tl, out = x :: tl ∧ (x < 48 ∨ x = 92) ∧ ¬(x = 34) ∧ ¬(x = 10)) :
+    unqFrom (.num b k a u) (out ++ rest) = interpFrom (.num b k a u) (c :: r) := by
+  obtain ⟨x, tl, ho, hx, h34, h10⟩ := hout
+  subst ho
+  rw [List.cons_append, unqFrom_cons (by simp [h34]) (by simp [h10]), lexStep_num_none hx,
+    interpFrom_cons, idlStep_ne (by simp), lexStep_num_none hc]
+  rfl
+
+/-- **simulation**: Go reading the text `quoteLiteral` emits (closing quote appended), from any state between
+    characters, is the IDL literal read by `interp` -/
+theorem unq_quote : ∀ (s : Bytes) (st : LexSt), st ≠ .esc → unqFrom st (quoteBody s ++ [34]) = interpFrom st s
+  | [], st, hst => by
+    rcases not_esc_cases hst with h | ⟨b, r, a, u, h⟩ <;> subst h
+    · simp [quoteBody, unqFrom, interpFrom]
+    · simp [quoteBody, unqFrom, interpFrom, lexStep_num_none (Or.inl (by omega : 34 < 48))]
+  | [c], st, hst => by
+    by_cases h92 : c = 92
+    · subst h92
+      have hq : quoteBody [92] = [92] := by simp [quoteBody]
+      rcases not_esc_cases hst with h | ⟨b, r, a, u, h⟩ <;> subst h
+      · rw [hq]
+        have : unqFrom .norm ([92] ++ [34]) = none := by
+          rw [List.cons_append, List.nil_append, unqFrom_norm_bslash]
+          simp [lexStep, escLookup, escTable, unqFrom]
+        rw [this, interpFrom_cons, idl_norm_bslash]
+        simp [interpFrom]
+      · rw [hq]; exact num_both_none (Or.inr rfl) ⟨92, [], rfl, Or.inr rfl, by simp, by simp⟩
+    · have ih := unq_quote []
+      simp only [quoteBody, List.nil_append] at ih
+      by_cases h34 : c = 34
+      · subst h34
+        have hq : quoteBody [34] = [92, 34] := by simp [quoteBody]
+        rw [hq]
+        rcases not_esc_cases hst with h | ⟨b, r, a, u, h⟩ <;> subst h
+        · rw [List.cons_append, List.cons_append, List.nil_append, unqFrom_norm_bslash, interpFrom_cons, idlStep_ne (by simp)]
+          simp [lexStep, escLookup, escTable, ih .norm (by simp)]
+        · exact num_both_none (Or.inl (by omega)) ⟨92, [34], rfl, Or.inr rfl, by simp, by simp⟩
+      · by_cases h10 : c = 10
+        · subst h10
+          have hq : quoteBody [10] = [92, 110] := by simp [quoteBody]
+          rw [hq]
+          rcases not_esc_cases hst with h | ⟨b, r, a, u, h⟩ <;> subst h
+          · rw [List.cons_append, List.cons_append, List.nil_append, unqFrom_norm_bslash, interpFrom_cons, idlStep_ne (by simp)]
+            simp [lexStep, escLookup, escTable, ih .norm (by simp)]
+          · exact num_both_none (Or.inl (by omega)) ⟨92, [110], rfl, Or.inr rfl, by simp, by simp⟩
+        · by_cases h13 : c = 13
+          · subst h13
+            have hq : quoteBody [13] = [92, 114] := by simp [quoteBody]
+            rw [hq]
+            rcases not_esc_cases hst with h | ⟨b, r, a, u, h⟩ <;> subst h
+            · rw [List.cons_append, List.cons_append, List.nil_append, unqFrom_norm_bslash, interpFrom_cons, idlStep_ne (by simp)]
+              simp [lexStep, escLookup, escTable, ih .norm (by simp)]
+            · exact num_both_none (Or.inl (by omega)) ⟨92, [114], rfl, Or.inr rfl, by simp, by simp⟩
+          · have hq : quoteBody [c] = [c] := by simp [quoteBody, h92, h34, h10, h13]
+            rw [hq, List.cons_append, List.nil_append, unqFrom_cons (by simp [h34]) (by simp [h10]), interpFrom_cons,
+              idlStep_ne (by simp [hst])]
+            cases hl : lexStep st c with
+            | none => rfl
+            | some p =>
+              obtain ⟨st', out⟩ := p
+              simp [ih st' (lexStep_not_esc hl (Or.inr h92))]
+  | c :: d :: r, st, hst => by
+    by_cases h92 : c = 92
+    · subst h92
+      rcases not_esc_cases hst with h | ⟨b, k, a, u, h⟩ <;> subst h
+      · by_cases h39 : d = 39
+        · subst h39
+          have ih := unq_quote r .norm (by simp)
+          have hq : quoteBody (92 :: 39 :: r) = 39 :: quoteBody r := by simp [quoteBody]
+          rw [hq, List.cons_append, unqFrom_cons (by simp) (by simp), interp_norm_bslash]
+          simp [idlStep, lexStep, ih]
+        · have hq : quoteBody (92 :: d :: r) = 92 :: d :: quoteBody r := by simp [quoteBody, h39]
+          rw [hq, List.cons_append, List.cons_append, unqFrom_norm_bslash, interp_norm_bslash, idlStep_ne (by simp [h39])]
+          cases hl : lexStep .esc d with
+          | none => rfl
+          | some p =>
+            obtain ⟨st', out⟩ := p
+            simp [unq_quote r st' (lexStep_not_esc hl (Or.inl rfl))]
+      · by_cases h39 : d = 39
+        · subst h39
+          have hq : quoteBody (92 :: 39 :: r) = [39] ++ quoteBody r := by simp [quoteBody]
+          rw [hq, List.append_assoc]
+          exact num_both_none (Or.inr rfl) ⟨39, [], rfl, Or.inl (by omega), by simp, by simp⟩
+        · have hq : quoteBody (92 :: d :: r) = [92, d] ++ quoteBody r := by simp [quoteBody, h39]
+          rw [hq, List.append_assoc]
+          exact num_both_none (Or.inr rfl) ⟨92, [d], rfl, Or.inr rfl, by simp, by simp⟩
+    · have ih := unq_quote (d :: r)
+      by_cases h34 : c = 34
+      · subst h34
+        have hq : quoteBody (34 :: d :: r) = [92, 34] ++ quoteBody (d :: r) := by simp [quoteBody]
+        rw [hq, List.append_assoc]
+        rcases not_esc_cases hst with h | ⟨b, k, a, u, h⟩ <;> subst h
+        · rw [List.cons_append, List.cons_append, List.nil_append, unqFrom_norm_bslash, interpFrom_cons, idlStep_ne (by simp)]
+          simp [lexStep, escLookup, escTable, ih .norm (by simp)]
+        · exact num_both_none (Or.inl (by omega)) ⟨92, [34], rfl, Or.inr rfl, by simp, by simp⟩
+      · by_cases h10 : c = 10
+        · subst h10
+          have hq : quoteBody (10 :: d :: r) = [92, 110] ++ quoteBody (d :: r) := by simp [quoteBody]
+          rw [hq, List.append_assoc]
+          rcases not_esc_cases hst with h | ⟨b, k, a, u, h⟩ <;> subst h
+          · rw [List.cons_append, List.cons_append, List.nil_append, unqFrom_norm_bslash, interpFrom_cons, idlStep_ne (by simp)]
+            simp [lexStep, escLookup, escTable, ih .norm (by simp)]
+          · exact num_both_none (Or.inl (by omega)) ⟨92, [110], rfl, Or.inr rfl, by simp, by simp⟩
+        · by_cases h13 : c = 13
+          · subst h13
+            have hq : quoteBody (13 :: d :: r) = [92, 114] ++ quoteBody (d :: r) := by simp [quoteBody]
+            rw [hq, List.append_assoc]
+            rcases not_esc_cases hst with h | ⟨b, k, a, u, h⟩ <;> subst h
+            · rw [List.cons_append, List.cons_append, List.nil_append, unqFrom_norm_bslash, interpFrom_cons, idlStep_ne (by simp)]
+              simp [lexStep, escLookup, escTable, ih .norm (by simp)]
+            · exact num_both_none (Or.inl (by omega)) ⟨92, [114], rfl, Or.inr rfl, by simp, by simp⟩
+          · have hq : quoteBody (c :: d :: r) = c :: quoteBody (d :: r) := by simp [quoteBody, h92, h34, h10, h13]
+            rw [hq, List.cons_append, unqFrom_cons (by simp [h34]) (by simp [h10]), interpFrom_cons,
+              idlStep_ne (by simp [hst])]
+            cases hl : lexStep st c with
+            | none => rfl
+            | some p =>
+              obtain ⟨st', out⟩ := p
+              simp [ih st' (lexStep_not_esc hl (Or.inr h92))]
+
+/-- **string_literal_value**: Go reads the emitted literal as the IDL literal's meaning -- for every literal -/
+theorem goUnquote_emit (s : Bytes) : goUnquote (emitStr s) = interp s := by
+  simp only [goUnquote, emitStr, interp]
+  exact unq_quote s .norm (by simp)
+
+end Gen.Defaults
+
+
+namespace Gen.Defaults
 
 section scalars
 variable {E : Env} {ρG ρI : ConstEnv} (ha : EnvAgree E ρG ρI) {root g gv : Nat} {t : ATy} {v : CV} {e : GoExpr} {val : GoVal}
+
+theorem hs'_ {gv : Nat} {x : Option Extra} : gv = gv ∨ x = none := Or.inl rfl
 include ha
 
-theorem onBool_sound (h : onBool E g v = .ok e) (hs : g = gv ∨ identFree v = true)
+theorem onBool_sound (h : onBool E gv v = .ok e)
     (hI : idlBool E ρI gv v = some val) : evalGo E ρG e = some val := by
   unfold idlBool at hI
   cases v with
@@ -190,7 +439,7 @@ theorem onBool_sound (h : onBool E g v = .ok e) (hs : g = gv ∨ identFree v = t
   | list xs => simp at hI
   | map kvs => simp at hI
   | ident s x =>
-    have hs' := ident_case hs
+    have hs' : gv = gv ∨ x = none := Or.inl rfl
     simp only [onBool] at h
     simp only at hI
     by_cases ht : s = bTrue
@@ -201,7 +450,7 @@ theorem onBool_sound (h : onBool E g v = .ok e) (hs : g = gv ∨ identFree v = t
       · simp only [hf, if_true, Res.ok.injEq] at h hI
         subst h; simpa [evalGo] using hI
       · simp only [hf, if_false] at h hI
-        cases hid : getID E g x with
+        cases hid : getID E gv x with
         | err => simp [hid] at h
         | panic => simp [hid] at h
         | ok o =>
@@ -218,7 +467,7 @@ theorem onBool_sound (h : onBool E g v = .ok e) (hs : g = gv ∨ identFree v = t
               cases w <;> simp [hr] at hI
               subst hI; rfl
 
-theorem onInt_sound {bits : Nat} (hb : t.cat.intBits.getD 64 = bits) (h : onInt E root g t v = .ok e) (hs : g = gv ∨ identFree v = true)
+theorem onInt_sound {bits : Nat} (hb : t.cat.intBits.getD 64 = bits) (h : onInt E root g gv t v = .ok e)
     (hI : idlInt E ρI gv bits v = some val) : evalGo E ρG e = some val := by
   unfold idlInt at hI
   cases v with
@@ -233,7 +482,7 @@ theorem onInt_sound {bits : Nat} (hb : t.cat.intBits.getD 64 = bits) (h : onInt 
   | list xs => simp at hI
   | map kvs => simp at hI
   | ident s x =>
-    have hs' := ident_case hs
+    have hs' : gv = gv ∨ x = none := Or.inl rfl
     simp only [onInt] at h
     simp only at hI
     by_cases ht : s = bTrue
@@ -241,7 +490,7 @@ theorem onInt_sound {bits : Nat} (hb : t.cat.intBits.getD 64 = bits) (h : onInt 
     · by_cases hf : s = bFalse
       · simp [hf] at hI
       · simp only [ht, hf, if_false, Bool.or_self, decide_false, Bool.false_eq_true] at h hI
-        cases hid : getID E g x with
+        cases hid : getID E gv x with
         | err => simp [hid] at h
         | panic => simp [hid] at h
         | ok o =>
@@ -267,7 +516,7 @@ theorem onInt_sound {bits : Nat} (hb : t.cat.intBits.getD 64 = bits) (h : onInt 
                 subst h
                 simp [evalGo, hgo, hin, hb]
 
-theorem onDouble_sound (h : onDouble E g v = .ok e) (hs : g = gv ∨ identFree v = true)
+theorem onDouble_sound (h : onDouble E gv v = .ok e)
     (hI : idlDouble E ρI gv v = some val) : evalGo E ρG e = some val := by
   unfold idlDouble at hI
   cases v with
@@ -283,7 +532,7 @@ theorem onDouble_sound (h : onDouble E g v = .ok e) (hs : g = gv ∨ identFree v
   | list xs => simp at hI
   | map kvs => simp at hI
   | ident s x =>
-    have hs' := ident_case hs
+    have hs' : gv = gv ∨ x = none := Or.inl rfl
     simp only [onDouble] at h
     simp only at hI
     by_cases ht : s = bTrue
@@ -291,7 +540,7 @@ theorem onDouble_sound (h : onDouble E g v = .ok e) (hs : g = gv ∨ identFree v
     · by_cases hf : s = bFalse
       · simp [hf] at hI
       · simp only [ht, hf, if_false, Bool.or_self, decide_false, Bool.false_eq_true] at h hI
-        cases hid : getID E g x with
+        cases hid : getID E gv x with
         | err => simp [hid] at h
         | panic => simp [hid] at h
         | ok o =>
@@ -308,7 +557,7 @@ theorem onDouble_sound (h : onDouble E g v = .ok e) (hs : g = gv ∨ identFree v
               cases w <;> simp [hr] at hI
               subst hI; rfl
 
-theorem onEnum_sound (h : onEnum E g v = .ok e) (hs : g = gv ∨ identFree v = true)
+theorem onEnum_sound (h : onEnum E gv v = .ok e)
     (hI : idlEnum E ρI gv v = some val) : evalGo E ρG e = some val := by
   unfold idlEnum at hI
   cases v with
@@ -321,10 +570,10 @@ theorem onEnum_sound (h : onEnum E g v = .ok e) (hs : g = gv ∨ identFree v = t
   | list xs => simp at hI
   | map kvs => simp at hI
   | ident s x =>
-    have hs' := ident_case hs
+    have hs' : gv = gv ∨ x = none := Or.inl rfl
     simp only [onEnum] at h
     simp only at hI
-    cases hid : getID E g x with
+    cases hid : getID E gv x with
     | err => simp [hid] at h
     | panic => simp [hid] at h
     | ok o =>
@@ -341,11 +590,10 @@ theorem onEnum_sound (h : onEnum E g v = .ok e) (hs : g = gv ∨ identFree v = t
           cases w <;> simp [hr] at hI
           subst hI; rfl
 
-theorem onStrBin_sound (h : onStrBin E g t v = .ok e) (hs : g = gv ∨ identFree v = true)
-    (hg : goodStr v = true) (hI : idlStr E ρI gv v = some val) : evalGo E ρG e = some val := by
+theorem onStrBin_sound (h : onStrBin E gv t v = .ok e)
+    (hI : idlStr E ρI gv v = some val) : evalGo E ρG e = some val := by
   unfold idlStr at hI
-  unfold goodStr at hg
-  have key : ∀ e0, strBinCore E g v = Res.ok e0 → ∃ b, val = .bytes b ∧ evalGo E ρG e0 = some (.bytes b) := by
+  have key : ∀ e0, strBinCore E gv v = Res.ok e0 → ∃ b, val = .bytes b ∧ evalGo E ρG e0 = some (.bytes b) := by
     intro e0 h0
     unfold strBinCore at h0
     cases v with
@@ -356,19 +604,18 @@ theorem onStrBin_sound (h : onStrBin E g t v = .ok e) (hs : g = gv ∨ identFree
     | lit s =>
       simp only [Res.ok.injEq] at h0
       subst h0
-      simp only at hI hg
-      simp only [litOK, beq_iff_eq] at hg
-      simp only [evalGo, hg]
+      simp only at hI
+      simp only [evalGo, goUnquote_emit]
       cases hi : interp s with
       | none => simp [hi] at hI
       | some b => simp [hi] at hI; exact ⟨b, hI.symm, rfl⟩
     | ident s x =>
-      have hs' := ident_case hs
+      have hs' : gv = gv ∨ x = none := Or.inl rfl
       simp only at h0 hI
       by_cases hb : (s = bTrue || s = bFalse) = true
       · simp [hb] at h0
       · simp only [hb, Bool.false_eq_true, if_false] at h0 hI
-        cases hid : getID E g x with
+        cases hid : getID E gv x with
         | err => simp [hid] at h0
         | panic => simp [hid] at h0
         | ok o =>
@@ -384,7 +631,7 @@ theorem onStrBin_sound (h : onStrBin E g t v = .ok e) (hs : g = gv ∨ identFree
               cases w <;> simp [hr] at hI
               exact ⟨_, hI.symm, this⟩
   unfold onStrBin at h
-  cases hc : strBinCore E g v with
+  cases hc : strBinCore E gv v with
   | err => simp [hc] at h
   | panic => simp [hc] at h
   | ok e0 =>
@@ -430,34 +677,76 @@ theorem structOf_find {E : Env} {g : Nat} {t : ATy} {file : Nat} {st : AStruct}
   · simp at h
   · simp at h
 
+
+end Gen.Defaults
+
+namespace Gen.Defaults
+
 theorem derefFuel_succ (E : Env) : ∃ n, E.derefFuel = n + 1 := ⟨_, rfl⟩
 
-theorem elemTy_inline {E : Env} {g : Nat} {t e : ATy} (hc : t.cat = .list ∨ t.cat = .set) (he : t.elem? = some e) :
-    elemTy E g t = some (g, e) := by
+/-- the element type the IDL side finds for a list/set type is the one `derefContainer` hands to the loop -/
+theorem derefC_elemTy {E : Env} {g g' g2 : Nat} {t t' e : ATy}
+    (hd : derefC E g t = .ok (g', t')) (he : elemTy E g t = some (g2, e)) : g2 = g' ∧ t'.elem? = some e := by
   obtain ⟨n, hn⟩ := derefFuel_succ E
-  unfold elemTy
-  rw [hn]
-  cases t with
-  | base c => simp [ATy.elem?] at he
-  | named c r nm => simp [ATy.elem?] at he
-  | list a => simp only [ATy.elem?, Option.some.injEq] at he; subst he; simp [deref]
-  | set a => simp only [ATy.elem?, Option.some.injEq] at he; subst he; simp [deref]
-  | map k w => rcases hc with hc | hc <;> simp [ATy.cat] at hc
+  unfold derefC at hd
+  unfold elemTy at he
+  cases hel : t.elem? with
+  | some x =>
+    simp only [hel, Res.ok.injEq, Prod.mk.injEq] at hd
+    obtain ⟨h1, h2⟩ := hd
+    subst h1 h2
+    rw [hn] at he
+    cases t with
+    | base c => simp [ATy.elem?] at hel
+    | named c r nm => simp [ATy.elem?] at hel
+    | list a => simp [deref] at he; simp [ATy.elem?, he.1, he.2]
+    | set a => simp [deref] at he; simp [ATy.elem?, he.1, he.2]
+    | map k w => simp [deref] at he
+  | none =>
+    simp only [hel] at hd
+    cases hdr : deref E E.derefFuel g t with
+    | none => simp [hdr] at hd
+    | some p =>
+      obtain ⟨g1, t1⟩ := p
+      simp only [hdr] at hd he
+      split at hd
+      · simp only [Res.ok.injEq, Prod.mk.injEq] at hd
+        obtain ⟨h1, h2⟩ := hd
+        subst h1 h2
+        cases t1 <;> simp [ATy.elem?] at he ⊢ <;> simp [he.1, he.2]
+      · cases hd
 
-theorem mapTy_inline {E : Env} {g : Nat} {t k w : ATy} (hk : t.key? = some k) (he : t.elem? = some w) :
-    mapTy E g t = some (g, k, w) := by
+theorem derefC_mapTy {E : Env} {g g' g2 : Nat} {t t' k w : ATy}
+    (hd : derefC E g t = .ok (g', t')) (he : mapTy E g t = some (g2, k, w)) :
+    g2 = g' ∧ t'.key? = some k ∧ t'.elem? = some w := by
   obtain ⟨n, hn⟩ := derefFuel_succ E
-  unfold mapTy
-  rw [hn]
-  cases t with
-  | base c => simp [ATy.elem?] at he
-  | named c r nm => simp [ATy.elem?] at he
-  | list a => simp [ATy.key?] at hk
-  | set a => simp [ATy.key?] at hk
-  | map k' w' =>
-    simp only [ATy.elem?, ATy.key?, Option.some.injEq] at he hk
-    subst he hk
-    simp [deref]
+  unfold derefC at hd
+  unfold mapTy at he
+  cases hel : t.elem? with
+  | some x =>
+    simp only [hel, Res.ok.injEq, Prod.mk.injEq] at hd
+    obtain ⟨h1, h2⟩ := hd
+    subst h1 h2
+    rw [hn] at he
+    cases t with
+    | base c => simp [ATy.elem?] at hel
+    | named c r nm => simp [ATy.elem?] at hel
+    | list a => simp [deref] at he
+    | set a => simp [deref] at he
+    | map k' w' => simp [deref] at he; simp [ATy.elem?, ATy.key?, he.1, he.2.1, he.2.2]
+  | none =>
+    simp only [hel] at hd
+    cases hdr : deref E E.derefFuel g t with
+    | none => simp [hdr] at hd
+    | some p =>
+      obtain ⟨g1, t1⟩ := p
+      simp only [hdr] at hd he
+      split at hd
+      · simp only [Res.ok.injEq, Prod.mk.injEq] at hd
+        obtain ⟨h1, h2⟩ := hd
+        subst h1 h2
+        cases t1 <;> simp [ATy.elem?, ATy.key?] at he ⊢ <;> simp [he.1, he.2.1, he.2.2]
+      · cases hd
 
 theorem bin2str_cat_ne (k : ATy) : (bin2str k).cat = if k.cat = .bin then .str else k.cat := by
   cases k with
@@ -484,24 +773,72 @@ theorem evalIDL_bin2str (E : Env) (ρ : ConstEnv) (gt gv : Nat) (k : ATy) (v : C
     simp only [h, h2]
   · rw [bin2str_eq_of_ne k h]
 
-end Gen.Defaults
+/-- a value of a binary type is a byte string -/
+theorem evalIDL_bin_bytes {E : Env} {ρ : ConstEnv} {gt gv : Nat} {k : ATy} {v : CV} {w : GoVal}
+    (hc : k.cat = .bin) (h : evalIDL E ρ gt gv k v = some w) : ∃ b, w = .bytes b := by
+  rw [evalIDL.eq_def] at h
+  simp only [hc] at h
+  unfold idlStr at h
+  cases v with
+  | lit s => cases hi : interp s <;> simp [hi] at h; exact ⟨_, h.symm⟩
+  | ident s x =>
+    simp only at h
+    split at h
+    · cases h
+    · cases hr : refValue E ρ gv x with
+      | none => simp [hr] at h
+      | some u => cases u <;> simp [hr] at h; exact ⟨_, h.symm⟩
+  | int n => simp at h
+  | dbl b tx => simp at h
+  | list xs => simp at h
+  | map kvs => simp at h
 
-namespace Gen.Defaults
+theorem evalGo_elemValue (E : Env) (ρ : ConstEnv) (t : ATy) (e : GoExpr) :
+    evalGo E ρ (elemValue E t e) = evalGo E ρ e := by
+  unfold elemValue
+  split
+  · split <;> simp [evalGo]
+  · rfl
+
+theorem evalGo_keyValue {E : Env} {ρ : ConstEnv} {kt : ATy} {k : CV} {e : GoExpr} {w : GoVal}
+    (he : evalGo E ρ e = some w) (hb : kt.cat = .bin → ∃ b, w = .bytes b) :
+    evalGo E ρ (keyValue kt k e) = some w := by
+  unfold keyValue
+  split
+  · rename_i hc
+    simp only [Bool.and_eq_true, beq_iff_eq] at hc
+    obtain ⟨b, hw⟩ := hb hc.1
+    subst hw
+    simp [evalGo, he]
+  · exact he
 
 theorem redirect_sound {E : Env} {ρG : ConstEnv} {f : AField} {typ : GoTy} {v : CV} {e : GoExpr} {x : GoVal}
-    {root file : Nat} (hr : resolveConst E root file f.ty v = .ok e) (hok : addrOK f v = true)
+    {root gv file : Nat} (hr : resolveConst E root gv file f.ty v = .ok e) (hok : addrOK f v = true)
     (he : evalGo E ρG e = some x) : evalGo E ρG (redirect f typ e) = some x := by
   unfold redirect
   cases hn : needRedirect f with
   | false => simpa using he
   | true =>
     simp only [if_true]
-    cases hb : f.ty.cat.isBase with
+    cases hb : (f.ty.cat.isBase || f.ty.cat == .enum) with
     | true => simp [GoExpr.startsAmp, evalGo, he]
     | false =>
       simp only [Bool.false_eq_true, if_false]
-      simp only [addrOK, hn, hb, Bool.not_false, Bool.and_self, if_true, Bool.and_eq_true, beq_iff_eq] at hok
-      obtain ⟨hc, hm⟩ := hok
+      have hc : f.ty.cat = .strct := by
+        unfold needRedirect at hn
+        by_cases h1 : (f.ty.cat == Cat.strct) = true
+        · simpa using h1
+        · simp only [h1, if_false, Bool.false_eq_true] at hn
+          by_cases h2 : (f.req == .optional && f.dflt.isNone) = true
+          · simp only [h2, if_true] at hn
+            by_cases h3 : (f.ty.cat == Cat.bin) = true
+            · simp [h3] at hn
+            · simp only [h3, if_false, Bool.false_eq_true] at hn
+              rw [hb] at hn; cases hn
+          · simp [h2] at hn
+      have hm : isMapLit v = true := by
+        simp only [addrOK, hc, bne_self_eq_false, Bool.false_or] at hok
+        exact hok
       cases v with
       | map kvs =>
         rw [resolveConst.eq_def] at hr
@@ -517,7 +854,7 @@ theorem redirect_sound {E : Env} {ρG : ConstEnv} {f : AField} {typ : GoTy} {v :
           | ok p =>
             obtain ⟨fl, st⟩ := p
             simp only [hso] at hr
-            cases hm2 : resolveMembers E root fl st kvs with
+            cases hm2 : resolveMembers E root gv fl st kvs with
             | err => simp [hm2] at hr
             | panic => simp [hm2] at hr
             | ok ents =>
@@ -530,51 +867,54 @@ theorem redirect_sound {E : Env} {ρG : ConstEnv} {f : AField} {typ : GoTy} {v :
       | ident s x => simp [isMapLit] at hm
       | list xs => simp [isMapLit] at hm
 
+end Gen.Defaults
+
+namespace Gen.Defaults
+
 section main
 set_option linter.unusedSectionVars false
-variable {E : Env} {ρG ρI : ConstEnv} (ha : EnvAgree E ρG ρI) (root : Nat)
+variable {E : Env} {ρG ρI : ConstEnv} (ha : EnvAgree E ρG ρI) (root gv : Nat)
 include ha
 
 /-- all types whose initialisers are not recursive -/
-theorem rc_scalar {v : CV} {g gv : Nat} {t : ATy} {e : GoExpr} {val : GoVal}
+theorem rc_scalar {v : CV} {g : Nat} {t : ATy} {e : GoExpr} {val : GoVal}
     (hsc : t.cat ≠ .list ∧ t.cat ≠ .set ∧ t.cat ≠ .map ∧ t.cat ≠ .strct)
-    (h : resolveConst E root g t v = .ok e) (hs : g = gv ∨ identFree v = true) (hg : good E g t v = true)
+    (h : resolveConst E root gv g t v = .ok e)
     (hI : evalIDL E ρI g gv t v = some val) : evalGo E ρG e = some val := by
   rw [resolveConst.eq_def] at h
   rw [evalIDL.eq_def] at hI
-  rw [good.eq_def] at hg
   cases hc : t.cat with
-  | bool => simp only [hc] at h hI; exact onBool_sound ha h hs hI
-  | i8 => simp only [hc] at h hI; exact onInt_sound ha (by simp [hc, Cat.intBits]) h hs hI
-  | i16 => simp only [hc] at h hI; exact onInt_sound ha (by simp [hc, Cat.intBits]) h hs hI
-  | i32 => simp only [hc] at h hI; exact onInt_sound ha (by simp [hc, Cat.intBits]) h hs hI
-  | i64 => simp only [hc] at h hI; exact onInt_sound ha (by simp [hc, Cat.intBits]) h hs hI
-  | dbl => simp only [hc] at h hI; exact onDouble_sound ha h hs hI
-  | str => simp only [hc] at h hI hg; exact onStrBin_sound ha h hs hg hI
-  | bin => simp only [hc] at h hI hg; exact onStrBin_sound ha h hs hg hI
-  | enum => simp only [hc] at h hI; exact onEnum_sound ha h hs hI
+  | bool => simp only [hc] at h hI; exact onBool_sound ha h hI
+  | i8 => simp only [hc] at h hI; exact onInt_sound ha (by simp [hc, Cat.intBits]) h hI
+  | i16 => simp only [hc] at h hI; exact onInt_sound ha (by simp [hc, Cat.intBits]) h hI
+  | i32 => simp only [hc] at h hI; exact onInt_sound ha (by simp [hc, Cat.intBits]) h hI
+  | i64 => simp only [hc] at h hI; exact onInt_sound ha (by simp [hc, Cat.intBits]) h hI
+  | dbl => simp only [hc] at h hI; exact onDouble_sound ha h hI
+  | str => simp only [hc] at h hI; exact onStrBin_sound ha h hI
+  | bin => simp only [hc] at h hI; exact onStrBin_sound ha h hI
+  | enum => simp only [hc] at h hI; exact onEnum_sound ha h hI
   | list => exact absurd hc hsc.1
   | set => exact absurd hc hsc.2.1
   | map => exact absurd hc hsc.2.2.1
   | strct => exact absurd hc hsc.2.2.2
 
 /-- an identifier as initialiser of a container or struct-like -/
-theorem rc_ident_composite {s : Bytes} {x : Option Extra} {g gv : Nat} {t : ATy} {e : GoExpr} {val : GoVal}
+theorem rc_ident_composite {s : Bytes} {x : Option Extra} {g : Nat} {t : ATy} {e : GoExpr} {val : GoVal}
     (hsc : t.cat = .list ∨ t.cat = .set ∨ t.cat = .map ∨ t.cat = .strct)
-    (h : resolveConst E root g t (.ident s x) = .ok e) (hs : g = gv ∨ identFree (.ident s x) = true)
+    (h : resolveConst E root gv g t (.ident s x) = .ok e)
     (hI : evalIDL E ρI g gv t (.ident s x) = some val) : evalGo E ρG e = some val := by
-  have hs' := ident_case hs
+  have hs' : gv = gv ∨ x = none := Or.inl rfl
   rw [resolveConst.eq_def] at h
   rw [evalIDL.eq_def] at hI
   -- what the four cases share
-  have common : ∀ (fallback : Res GoExpr) (ty : GoTy),
-      (match getID E g x with
+  have common : ∀ (fallback : Res GoExpr),
+      (match getID E gv x with
         | .ok (some r) => Res.ok (GoExpr.ident r)
         | .panic => Res.panic
         | _ => fallback) = Res.ok e →
       ∀ w, refValue E ρI gv x = some w → evalGo E ρG e = some w := by
-    intro fb ty h w hw
-    cases hid : getID E g x with
+    intro fb h w hw
+    cases hid : getID E gv x with
     | panic => simp [hid] at h
     | err => exact absurd hid getID_not_err
     | ok o =>
@@ -592,28 +932,43 @@ theorem rc_ident_composite {s : Bytes} {x : Option Extra} {g gv : Nat} {t : ATy}
     | none => rcases hsc with hc | hc | hc | hc <;> simp [hc, hr] at hI
     | some w =>
       rcases hsc with hc | hc | hc | hc <;> simp only [hc, htn] at h hI
-      · have := common _ ty h w hr
-        cases w <;> simp [hr] at hI
-        subst hI; exact this
-      · have := common _ ty h w hr
-        cases w <;> simp [hr] at hI
-        subst hI; exact this
-      · have := common _ ty h w hr
-        cases w <;> simp [hr] at hI
-        subst hI; exact this
-      · have := common _ ty h w hr
+      · cases hd : derefC E g t with
+        | err => simp [hd] at h
+        | panic => simp [hd] at h
+        | ok p =>
+          simp only [hd] at h
+          have := common _ h w hr
+          cases w <;> simp [hr] at hI
+          subst hI; exact this
+      · cases hd : derefC E g t with
+        | err => simp [hd] at h
+        | panic => simp [hd] at h
+        | ok p =>
+          simp only [hd] at h
+          have := common _ h w hr
+          cases w <;> simp [hr] at hI
+          subst hI; exact this
+      · cases hd : derefC E g t with
+        | err => simp [hd] at h
+        | panic => simp [hd] at h
+        | ok p =>
+          simp only [hd] at h
+          have := common _ h w hr
+          cases w <;> simp [hr] at hI
+          subst hI; exact this
+      · have := common _ h w hr
         cases w <;> simp [hr] at hI
         subst hI; exact this
 
-theorem rc_leaf {v : CV} {g gv : Nat} {t : ATy} {e : GoExpr} {val : GoVal} (hl : v.isLeaf = true)
-    (h : resolveConst E root g t v = .ok e) (hs : g = gv ∨ identFree v = true) (hg : good E g t v = true)
+theorem rc_leaf {v : CV} {g : Nat} {t : ATy} {e : GoExpr} {val : GoVal} (hl : v.isLeaf = true)
+    (h : resolveConst E root gv g t v = .ok e)
     (hI : evalIDL E ρI g gv t v = some val) : evalGo E ρG e = some val := by
   by_cases hsc : t.cat ≠ .list ∧ t.cat ≠ .set ∧ t.cat ≠ .map ∧ t.cat ≠ .strct
-  · exact rc_scalar ha root hsc h hs hg hI
+  · exact rc_scalar ha root gv hsc h hI
   · have hcomp : t.cat = .list ∨ t.cat = .set ∨ t.cat = .map ∨ t.cat = .strct := by
       cases hc : t.cat <;> simp_all
     cases v with
-    | ident s x => exact rc_ident_composite ha root hcomp h hs hI
+    | ident s x => exact rc_ident_composite ha root gv hcomp h hI
     | list xs => simp [CV.isLeaf] at hl
     | map kvs => simp [CV.isLeaf] at hl
     | int n => rw [evalIDL.eq_def] at hI; rcases hcomp with hc | hc | hc | hc <;> simp [hc] at hI
@@ -621,18 +976,17 @@ theorem rc_leaf {v : CV} {g gv : Nat} {t : ATy} {e : GoExpr} {val : GoVal} (hl :
     | lit s => rw [evalIDL.eq_def] at hI; rcases hcomp with hc | hc | hc | hc <;> simp [hc] at hI
 
 omit ha in
-theorem list_case {xs : List CV} {g gv : Nat} {t : ATy} {e : GoExpr} {val : GoVal}
-    (ih : ∀ (g gv : Nat) (et : ATy) (es : List GoExpr) (vals : List GoVal),
-      resolveList E root g (some et) xs = .ok es → (g = gv ∨ identFreeL xs = true) → goodL E g et xs = true →
+theorem list_case {xs : List CV} {g : Nat} {t : ATy} {e : GoExpr} {val : GoVal}
+    (ih : ∀ (g : Nat) (et : ATy) (es : List GoExpr) (vals : List GoVal),
+      resolveList E root gv g (some et) xs = .ok es → goodL E g et xs = true →
       evalIDLList E ρI g gv et xs = some vals → evalGoList E ρG es = some vals)
     (hc : t.cat = .list ∨ t.cat = .set)
-    (h : resolveConst E root g t (.list xs) = .ok e) (hs : g = gv ∨ identFree (.list xs) = true)
+    (h : resolveConst E root gv g t (.list xs) = .ok e)
     (hg : good E g t (.list xs) = true) (hI : evalIDL E ρI g gv t (.list xs) = some val) :
     evalGo E ρG e = some val := by
   rw [resolveConst.eq_def] at h
   rw [evalIDL.eq_def] at hI
   rw [good.eq_def] at hg
-  have hs' : g = gv ∨ identFreeL xs = true := by simpa [identFree] using hs
   rcases hc with hc | hc
   all_goals
     simp only [hc] at h hI hg
@@ -641,45 +995,40 @@ theorem list_case {xs : List CV} {g gv : Nat} {t : ATy} {e : GoExpr} {val : GoVa
     | panic => simp [htn] at h
     | ok ty =>
       simp only [htn] at h
-      cases hrl : resolveList E root g t.elem? xs with
-      | err => simp [hrl] at h
-      | panic => simp [hrl] at h
-      | ok es =>
-        simp only [hrl, Res.ok.injEq] at h
-        subst h
-        cases hel : t.elem? with
-        | none =>
-          rw [hel] at hrl
-          cases xs with
-          | cons x r => simp [resolveList] at hrl
-          | nil =>
-            simp only [resolveList, Res.ok.injEq] at hrl
-            subst hrl
-            cases het : elemTy E g t with
-            | none => simp [het] at hI
-            | some p =>
-              obtain ⟨g', e'⟩ := p
-              simp only [het, evalIDLList, Option.map_some, Option.some.injEq] at hI
+      cases hd : derefC E g t with
+      | err => simp [hd] at h
+      | panic => simp [hd] at h
+      | ok p =>
+        obtain ⟨g', t'⟩ := p
+        simp only [hd] at h hg
+        cases hrl : resolveList E root gv g' t'.elem? xs with
+        | err => simp [hrl] at h
+        | panic => simp [hrl] at h
+        | ok es =>
+          simp only [hrl, Res.ok.injEq] at h
+          subst h
+          cases het : elemTy E g t with
+          | none => simp [het] at hI
+          | some q =>
+            obtain ⟨g2, et⟩ := q
+            obtain ⟨hg2, hel⟩ := derefC_elemTy hd het
+            subst hg2
+            simp only [het] at hI
+            rw [hel] at hrl
+            simp only [hel] at hg
+            cases hl : evalIDLList E ρI g2 gv et xs with
+            | none => simp [hl] at hI
+            | some vals =>
+              simp only [hl, Option.map_some, Option.some.injEq] at hI
               subst hI
-              simp [evalGo, evalGoList]
-        | some et =>
-          rw [elemTy_inline (by simp [hc]) hel] at hI
-          rw [hel] at hrl
-          simp only [hel] at hg
-          simp only at hI
-          cases hl : evalIDLList E ρI g gv et xs with
-          | none => simp [hl] at hI
-          | some vals =>
-            simp only [hl, Option.map_some, Option.some.injEq] at hI
-            subst hI
-            have := ih g gv et es vals hrl hs' hg hl
-            simp [evalGo, this]
+              have := ih g2 et es vals hrl hg hl
+              simp [evalGo, this]
 
 omit ha in
 /-- `{}` written for a list or set (and, on the Go side, any other map literal: fault tolerance) -/
-theorem list_wrongkind {kvs : List (CV × CV)} {g gv : Nat} {t : ATy} {e : GoExpr} {val : GoVal}
+theorem list_wrongkind {kvs : List (CV × CV)} {g : Nat} {t : ATy} {e : GoExpr} {val : GoVal}
     (hc : t.cat = .list ∨ t.cat = .set)
-    (h : resolveConst E root g t (.map kvs) = .ok e) (hI : evalIDL E ρI g gv t (.map kvs) = some val) :
+    (h : resolveConst E root gv g t (.map kvs) = .ok e) (hI : evalIDL E ρI g gv t (.map kvs) = some val) :
     evalGo E ρG e = some val := by
   rw [resolveConst.eq_def] at h
   rw [evalIDL.eq_def] at hI
@@ -690,16 +1039,21 @@ theorem list_wrongkind {kvs : List (CV × CV)} {g gv : Nat} {t : ATy} {e : GoExp
     | err => simp [htn] at h
     | panic => simp [htn] at h
     | ok ty =>
-      simp only [htn, Res.ok.injEq] at h
-      subst h
-      split at hI
-      · simp only [Option.some.injEq] at hI; subst hI; simp [evalGo, evalGoList]
-      · cases hI
+      simp only [htn] at h
+      cases hd : derefC E g t with
+      | err => simp [hd] at h
+      | panic => simp [hd] at h
+      | ok p =>
+        simp only [hd, Res.ok.injEq] at h
+        subst h
+        split at hI
+        · simp only [Option.some.injEq] at hI; subst hI; simp [evalGo, evalGoList]
+        · cases hI
 
 omit ha in
-theorem map_wrongkind {xs : List CV} {g gv : Nat} {t : ATy} {e : GoExpr} {val : GoVal}
+theorem map_wrongkind {xs : List CV} {g : Nat} {t : ATy} {e : GoExpr} {val : GoVal}
     (hc : t.cat = .map)
-    (h : resolveConst E root g t (.list xs) = .ok e) (hI : evalIDL E ρI g gv t (.list xs) = some val) :
+    (h : resolveConst E root gv g t (.list xs) = .ok e) (hI : evalIDL E ρI g gv t (.list xs) = some val) :
     evalGo E ρG e = some val := by
   rw [resolveConst.eq_def] at h
   rw [evalIDL.eq_def] at hI
@@ -708,85 +1062,77 @@ theorem map_wrongkind {xs : List CV} {g gv : Nat} {t : ATy} {e : GoExpr} {val : 
   | err => simp [htn] at h
   | panic => simp [htn] at h
   | ok ty =>
-    simp only [htn, Res.ok.injEq] at h
-    subst h
-    split at hI
-    · simp only [Option.some.injEq] at hI; subst hI; simp [evalGo, evalGoPairs]
-    · cases hI
+    simp only [htn] at h
+    cases hd : derefC E g t with
+    | err => simp [hd] at h
+    | panic => simp [hd] at h
+    | ok p =>
+      simp only [hd, Res.ok.injEq] at h
+      subst h
+      split at hI
+      · simp only [Option.some.injEq] at hI; subst hI; simp [evalGo, evalGoPairs]
+      · cases hI
 
 omit ha in
-theorem map_case {kvs : List (CV × CV)} {g gv : Nat} {t : ATy} {e : GoExpr} {val : GoVal}
-    (ih : ∀ (g gv : Nat) (kt vt : ATy) (es : List (GoExpr × GoExpr)) (vals : List (GoVal × GoVal)),
-      resolvePairs E root g (some (bin2str kt)) (some vt) kvs = .ok es → (g = gv ∨ identFreeP kvs = true) →
+theorem map_case {kvs : List (CV × CV)} {g : Nat} {t : ATy} {e : GoExpr} {val : GoVal}
+    (ih : ∀ (g : Nat) (kt vt : ATy) (es : List (GoExpr × GoExpr)) (vals : List (GoVal × GoVal)),
+      resolvePairs E root gv g (some kt) (some vt) kvs = .ok es →
       goodP E g (bin2str kt) vt kvs = true →
       evalIDLPairs E ρI g gv kt vt kvs = some vals → evalGoPairs E ρG es = some vals)
     (hc : t.cat = .map)
-    (h : resolveConst E root g t (.map kvs) = .ok e) (hs : g = gv ∨ identFree (.map kvs) = true)
+    (h : resolveConst E root gv g t (.map kvs) = .ok e)
     (hg : good E g t (.map kvs) = true) (hI : evalIDL E ρI g gv t (.map kvs) = some val) :
     evalGo E ρG e = some val := by
   rw [resolveConst.eq_def] at h
   rw [evalIDL.eq_def] at hI
   rw [good.eq_def] at hg
-  have hs' : g = gv ∨ identFreeP kvs = true := by simpa [identFree] using hs
   simp only [hc] at h hI hg
   cases htn : typeName E root g t with
   | err => simp [htn] at h
   | panic => simp [htn] at h
   | ok ty =>
     simp only [htn] at h
-    cases hrl : resolvePairs E root g (t.key?.map bin2str) t.elem? kvs with
-    | err => simp [hrl] at h
-    | panic => simp [hrl] at h
-    | ok es =>
-      simp only [hrl, Res.ok.injEq] at h
-      subst h
-      cases hk : t.key? with
-      | none =>
-        -- a typedef'd map: only the empty literal gets through
-        rw [hk] at hrl
-        cases kvs with
-        | cons x r => simp [resolvePairs] at hrl
-        | nil =>
-          simp only [resolvePairs, Res.ok.injEq] at hrl
-          subst hrl
-          cases het : mapTy E g t with
-          | none => simp [het] at hI
-          | some p =>
-            obtain ⟨g', k', w'⟩ := p
-            simp only [het, evalIDLPairs, Option.map_some, Option.some.injEq] at hI
-            subst hI
-            simp [evalGo, evalGoPairs]
-      | some kt =>
-        cases hel : t.elem? with
-        | none =>
-          cases t <;> simp [ATy.key?, ATy.elem?] at hk hel
-        | some vt =>
-          rw [mapTy_inline hk hel] at hI
+    cases hd : derefC E g t with
+    | err => simp [hd] at h
+    | panic => simp [hd] at h
+    | ok p =>
+      obtain ⟨g', t'⟩ := p
+      simp only [hd] at h hg
+      cases hrl : resolvePairs E root gv g' t'.key? t'.elem? kvs with
+      | err => simp [hrl] at h
+      | panic => simp [hrl] at h
+      | ok es =>
+        simp only [hrl, Res.ok.injEq] at h
+        subst h
+        cases het : mapTy E g t with
+        | none => simp [het] at hI
+        | some q =>
+          obtain ⟨g2, kt, vt⟩ := q
+          obtain ⟨hg2, hk, hel⟩ := derefC_mapTy hd het
+          subst hg2
+          simp only [het] at hI
           rw [hk, hel] at hrl
           simp only [hk, hel] at hg
-          simp only [Option.map_some] at hrl
-          simp only at hI
-          cases hl : evalIDLPairs E ρI g gv kt vt kvs with
+          cases hl : evalIDLPairs E ρI g2 gv kt vt kvs with
           | none => simp [hl] at hI
           | some vals =>
             simp only [hl, Option.map_some, Option.some.injEq] at hI
             subst hI
-            have := ih g gv kt vt es vals hrl hs' hg hl
+            have := ih g2 kt vt es vals hrl hg hl
             simp [evalGo, this]
 
 omit ha in
-theorem struct_case {kvs : List (CV × CV)} {g gv : Nat} {t : ATy} {e : GoExpr} {val : GoVal}
-    (ih : ∀ (file gv : Nat) (st : AStruct) (ents : List (Nat × GoExpr)) (vals : List (Nat × GoVal)),
-      resolveMembers E root file st kvs = .ok ents → (file = gv ∨ identFreeP kvs = true) → goodM E file st kvs = true →
+theorem struct_case {kvs : List (CV × CV)} {g : Nat} {t : ATy} {e : GoExpr} {val : GoVal}
+    (ih : ∀ (file : Nat) (st : AStruct) (ents : List (Nat × GoExpr)) (vals : List (Nat × GoVal)),
+      resolveMembers E root gv file st kvs = .ok ents → goodM E file st kvs = true →
       evalIDLMembers E ρI file gv st kvs = some vals → evalGoEnts E ρG ents = some vals)
     (hc : t.cat = .strct)
-    (h : resolveConst E root g t (.map kvs) = .ok e) (hs : g = gv ∨ identFree (.map kvs) = true)
+    (h : resolveConst E root gv g t (.map kvs) = .ok e)
     (hg : good E g t (.map kvs) = true) (hI : evalIDL E ρI g gv t (.map kvs) = some val) :
     evalGo E ρG e = some val := by
   rw [resolveConst.eq_def] at h
   rw [evalIDL.eq_def] at hI
   rw [good.eq_def] at hg
-  have hs' : g = gv ∨ identFreeP kvs = true := by simpa [identFree] using hs
   simp only [hc] at h hI hg
   cases htn : typeName E root g t with
   | err => simp [htn] at h
@@ -799,87 +1145,71 @@ theorem struct_case {kvs : List (CV × CV)} {g gv : Nat} {t : ATy} {e : GoExpr} 
     | ok p =>
       obtain ⟨file, st⟩ := p
       simp only [hso] at h hI hg
-      cases hrm : resolveMembers E root file st kvs with
+      cases hrm : resolveMembers E root gv file st kvs with
       | err => simp [hrm] at h
       | panic => simp [hrm] at h
       | ok ents =>
         simp only [hrm, Res.ok.injEq] at h
         subst h
-        simp only [Bool.and_eq_true, Bool.or_eq_true, beq_iff_eq] at hg
-        obtain ⟨hscope, hgm⟩ := hg
-        have hs2 : file = gv ∨ identFreeP kvs = true := by
-          rcases hs' with hgv | hf
-          · rcases hscope with hfg | hf
-            · exact Or.inl (hfg.trans hgv)
-            · exact Or.inr hf
-          · exact Or.inr hf
         cases hl : evalIDLMembers E ρI file gv st kvs with
         | none => simp [hl] at hI
         | some vals =>
           simp only [hl, Option.map_some, Option.some.injEq] at hI
           subst hI
-          have := ih file gv st ents vals hrm hs2 hgm hl
+          have := ih file st ents vals hrm hg hl
           simp [evalGo, structOf_find hso, this]
 
 omit ha in
 theorem struct_list {xs : List CV} {g : Nat} {t : ATy} {e : GoExpr}
-    (hc : t.cat = .strct) (h : resolveConst E root g t (.list xs) = .ok e) : False := by
+    (hc : t.cat = .strct) (h : resolveConst E root gv g t (.list xs) = .ok e) : False := by
   rw [resolveConst.eq_def] at h
   simp only [hc] at h
   cases htn : typeName E root g t <;> simp [htn] at h
 
 mutual
-theorem rc_sound : ∀ (v : CV) (g gv : Nat) (t : ATy) (e : GoExpr) (val : GoVal),
-    resolveConst E root g t v = .ok e → (g = gv ∨ identFree v = true) → good E g t v = true →
+theorem rc_sound : ∀ (v : CV) (g : Nat) (t : ATy) (e : GoExpr) (val : GoVal),
+    resolveConst E root gv g t v = .ok e → good E g t v = true →
     evalIDL E ρI g gv t v = some val → evalGo E ρG e = some val
-  | .int n, _, _, _, _, _, h, hs, hg, hI => rc_leaf ha root rfl h hs hg hI
-  | .dbl b tx, _, _, _, _, _, h, hs, hg, hI => rc_leaf ha root rfl h hs hg hI
-  | .lit s, _, _, _, _, _, h, hs, hg, hI => rc_leaf ha root rfl h hs hg hI
-  | .ident s x, _, _, _, _, _, h, hs, hg, hI => rc_leaf ha root rfl h hs hg hI
-  | .list xs, g, gv, t, e, val, h, hs, hg, hI => by
+  | .int n, _, _, _, _, h, _, hI => rc_leaf ha root gv rfl h hI
+  | .dbl b tx, _, _, _, _, h, _, hI => rc_leaf ha root gv rfl h hI
+  | .lit s, _, _, _, _, h, _, hI => rc_leaf ha root gv rfl h hI
+  | .ident s x, _, _, _, _, h, _, hI => rc_leaf ha root gv rfl h hI
+  | .list xs, g, t, e, val, h, hg, hI => by
       by_cases hsc : t.cat ≠ .list ∧ t.cat ≠ .set ∧ t.cat ≠ .map ∧ t.cat ≠ .strct
-      · exact rc_scalar ha root hsc h hs hg hI
+      · exact rc_scalar ha root gv hsc h hI
       · cases hc : t.cat with
-        | list => exact list_case root (rl_sound xs) (Or.inl hc) h hs hg hI
-        | set => exact list_case root (rl_sound xs) (Or.inr hc) h hs hg hI
-        | map => exact map_wrongkind root hc h hI
-        | strct => exact (struct_list root hc h).elim
+        | list => exact list_case root gv (rl_sound xs) (Or.inl hc) h hg hI
+        | set => exact list_case root gv (rl_sound xs) (Or.inr hc) h hg hI
+        | map => exact map_wrongkind root gv hc h hI
+        | strct => exact (struct_list root gv hc h).elim
         | _ => simp_all
-  | .map kvs, g, gv, t, e, val, h, hs, hg, hI => by
+  | .map kvs, g, t, e, val, h, hg, hI => by
       by_cases hsc : t.cat ≠ .list ∧ t.cat ≠ .set ∧ t.cat ≠ .map ∧ t.cat ≠ .strct
-      · exact rc_scalar ha root hsc h hs hg hI
+      · exact rc_scalar ha root gv hsc h hI
       · cases hc : t.cat with
-        | list => exact list_wrongkind root (Or.inl hc) h hI
-        | set => exact list_wrongkind root (Or.inr hc) h hI
-        | map => exact map_case root (rp_sound kvs) hc h hs hg hI
-        | strct => exact struct_case root (rm_sound kvs) hc h hs hg hI
+        | list => exact list_wrongkind root gv (Or.inl hc) h hI
+        | set => exact list_wrongkind root gv (Or.inr hc) h hI
+        | map => exact map_case root gv (rp_sound kvs) hc h hg hI
+        | strct => exact struct_case root gv (rm_sound kvs) hc h hg hI
         | _ => simp_all
-theorem rl_sound : ∀ (xs : List CV) (g gv : Nat) (et : ATy) (es : List GoExpr) (vals : List GoVal),
-    resolveList E root g (some et) xs = .ok es → (g = gv ∨ identFreeL xs = true) → goodL E g et xs = true →
+theorem rl_sound : ∀ (xs : List CV) (g : Nat) (et : ATy) (es : List GoExpr) (vals : List GoVal),
+    resolveList E root gv g (some et) xs = .ok es → goodL E g et xs = true →
     evalIDLList E ρI g gv et xs = some vals → evalGoList E ρG es = some vals
-  | [], _, _, _, es, vals, h, _, _, hI => by
+  | [], _, _, es, vals, h, _, hI => by
       simp only [resolveList, Res.ok.injEq] at h
       simp only [evalIDLList, Option.some.injEq] at hI
       subst h hI
       simp [evalGoList]
-  | x :: r, g, gv, et, es, vals, h, hs, hg, hI => by
+  | x :: r, g, et, es, vals, h, hg, hI => by
       simp only [resolveList] at h
       simp only [evalIDLList] at hI
       simp only [goodL, Bool.and_eq_true] at hg
-      have hs1 : g = gv ∨ identFree x = true := by
-        rcases hs with hs | hs
-        · exact Or.inl hs
-        · simp only [identFreeL, Bool.and_eq_true] at hs; exact Or.inr hs.1
-      have hs2 : g = gv ∨ identFreeL r = true := by
-        rcases hs with hs | hs
-        · exact Or.inl hs
-        · simp only [identFreeL, Bool.and_eq_true] at hs; exact Or.inr hs.2
-      cases h1 : resolveConst E root g et x with
+      cases h1 : resolveConst E root gv g et x with
       | err => simp [h1] at h
       | panic => simp [h1] at h
       | ok a =>
         simp only [h1] at h
-        cases h2 : resolveList E root g (some et) r with
+        cases h2 : resolveList E root gv g (some et) r with
         | err => simp [h2] at h
         | panic => simp [h2] at h
         | ok rest =>
@@ -894,45 +1224,33 @@ theorem rl_sound : ∀ (xs : List CV) (g gv : Nat) (et : ATy) (es : List GoExpr)
             | some ws =>
               simp only [hvs, Option.map_some, Option.some.injEq] at hI
               subst hI
-              have e1 := rc_sound x g gv et a w h1 hs1 hg.1 hv
-              have e2 := rl_sound r g gv et rest ws h2 hs2 hg.2 hvs
-              simp [evalGoList, e1, e2]
-theorem rp_sound : ∀ (kvs : List (CV × CV)) (g gv : Nat) (kt vt : ATy) (es : List (GoExpr × GoExpr)) (vals : List (GoVal × GoVal)),
-    resolvePairs E root g (some (bin2str kt)) (some vt) kvs = .ok es → (g = gv ∨ identFreeP kvs = true) →
+              have e1 := rc_sound x g et a w h1 hg.1 hv
+              have e2 := rl_sound r g et rest ws h2 hg.2 hvs
+              simp [evalGoList, evalGo_elemValue, e1, e2]
+theorem rp_sound : ∀ (kvs : List (CV × CV)) (g : Nat) (kt vt : ATy) (es : List (GoExpr × GoExpr)) (vals : List (GoVal × GoVal)),
+    resolvePairs E root gv g (some kt) (some vt) kvs = .ok es →
     goodP E g (bin2str kt) vt kvs = true →
     evalIDLPairs E ρI g gv kt vt kvs = some vals → evalGoPairs E ρG es = some vals
-  | [], _, _, _, _, es, vals, h, _, _, hI => by
+  | [], _, _, _, es, vals, h, _, hI => by
       simp only [resolvePairs, Res.ok.injEq] at h
       simp only [evalIDLPairs, Option.some.injEq] at hI
       subst h hI
       simp [evalGoPairs]
-  | (k, v) :: r, g, gv, kt, vt, es, vals, h, hs, hg, hI => by
+  | (k, v) :: r, g, kt, vt, es, vals, h, hg, hI => by
       simp only [resolvePairs] at h
       simp only [evalIDLPairs] at hI
       simp only [goodP, Bool.and_eq_true] at hg
-      have hsk : g = gv ∨ identFree k = true := by
-        rcases hs with hs | hs
-        · exact Or.inl hs
-        · simp only [identFreeP, Bool.and_eq_true] at hs; exact Or.inr hs.1.1
-      have hsv : g = gv ∨ identFree v = true := by
-        rcases hs with hs | hs
-        · exact Or.inl hs
-        · simp only [identFreeP, Bool.and_eq_true] at hs; exact Or.inr hs.1.2
-      have hsr : g = gv ∨ identFreeP r = true := by
-        rcases hs with hs | hs
-        · exact Or.inl hs
-        · simp only [identFreeP, Bool.and_eq_true] at hs; exact Or.inr hs.2
-      cases h1 : resolveConst E root g (bin2str kt) k with
+      cases h1 : resolveConst E root gv g (bin2str kt) k with
       | err => simp [h1] at h
       | panic => simp [h1] at h
       | ok a =>
         simp only [h1] at h
-        cases h2 : resolveConst E root g vt v with
+        cases h2 : resolveConst E root gv g vt v with
         | err => simp [h2] at h
         | panic => simp [h2] at h
         | ok b =>
           simp only [h2] at h
-          cases h3 : resolvePairs E root g (some (bin2str kt)) (some vt) r with
+          cases h3 : resolvePairs E root gv g (some kt) (some vt) r with
           | err => simp [h3] at h
           | panic => simp [h3] at h
           | ok rest =>
@@ -952,30 +1270,23 @@ theorem rp_sound : ∀ (kvs : List (CV × CV)) (g gv : Nat) (kt vt : ATy) (es : 
                   simp only [hvs, Option.map_some, Option.some.injEq] at hI
                   subst hI
                   have hk' : evalIDL E ρI g gv (bin2str kt) k = some wk := by rw [evalIDL_bin2str]; exact hk
-                  have e1 := rc_sound k g gv (bin2str kt) a wk h1 hsk hg.1.1 hk'
-                  have e2 := rc_sound v g gv vt b wv h2 hsv hg.1.2 hv
-                  have e3 := rp_sound r g gv kt vt rest ws h3 hsr hg.2 hvs
-                  simp [evalGoPairs, e1, e2, e3]
-theorem rm_sound : ∀ (kvs : List (CV × CV)) (file gv : Nat) (st : AStruct) (ents : List (Nat × GoExpr)) (vals : List (Nat × GoVal)),
-    resolveMembers E root file st kvs = .ok ents → (file = gv ∨ identFreeP kvs = true) → goodM E file st kvs = true →
+                  have e1 := rc_sound k g (bin2str kt) a wk h1 hg.1.1 hk'
+                  have e1' := evalGo_keyValue (kt := kt) (k := k) e1 (fun hb => evalIDL_bin_bytes hb hk)
+                  have e2 := rc_sound v g vt b wv h2 hg.1.2 hv
+                  have e3 := rp_sound r g kt vt rest ws h3 hg.2 hvs
+                  simp [evalGoPairs, evalGo_elemValue, e1', e2, e3]
+theorem rm_sound : ∀ (kvs : List (CV × CV)) (file : Nat) (st : AStruct) (ents : List (Nat × GoExpr)) (vals : List (Nat × GoVal)),
+    resolveMembers E root gv file st kvs = .ok ents → goodM E file st kvs = true →
     evalIDLMembers E ρI file gv st kvs = some vals → evalGoEnts E ρG ents = some vals
-  | [], _, _, _, ents, vals, h, _, _, hI => by
+  | [], _, _, ents, vals, h, _, hI => by
       simp only [resolveMembers, Res.ok.injEq] at h
       simp only [evalIDLMembers, Option.some.injEq] at hI
       subst h hI
       simp [evalGoEnts]
-  | (k, v) :: r, file, gv, st, ents, vals, h, hs, hg, hI => by
+  | (k, v) :: r, file, st, ents, vals, h, hg, hI => by
       simp only [resolveMembers] at h
       simp only [evalIDLMembers] at hI
       simp only [goodM, Bool.and_eq_true] at hg
-      have hsv : file = gv ∨ identFree v = true := by
-        rcases hs with hs | hs
-        · exact Or.inl hs
-        · simp only [identFreeP, Bool.and_eq_true] at hs; exact Or.inr hs.1.2
-      have hsr : file = gv ∨ identFreeP r = true := by
-        rcases hs with hs | hs
-        · exact Or.inl hs
-        · simp only [identFreeP, Bool.and_eq_true] at hs; exact Or.inr hs.2
       cases k with
       | int n => simp at h
       | dbl b tx => simp at h
@@ -995,12 +1306,12 @@ theorem rm_sound : ∀ (kvs : List (CV × CV)) (file gv : Nat) (st : AStruct) (e
           | panic => simp [htn] at h
           | ok typ =>
             simp only [htn] at h
-            cases h1 : resolveConst E root file f.ty v with
+            cases h1 : resolveConst E root gv file f.ty v with
             | err => simp [h1] at h
             | panic => simp [h1] at h
             | ok e =>
               simp only [h1] at h
-              cases h2 : resolveMembers E root file st r with
+              cases h2 : resolveMembers E root gv file st r with
               | err => simp [h2] at h
               | panic => simp [h2] at h
               | ok rest =>
@@ -1015,9 +1326,9 @@ theorem rm_sound : ∀ (kvs : List (CV × CV)) (file gv : Nat) (st : AStruct) (e
                   | some ws =>
                     simp only [hvs, Option.map_some, Option.some.injEq] at hI
                     subst hI
-                    have e1 := rc_sound v file gv f.ty e w h1 hsv hg.1.2 hv
+                    have e1 := rc_sound v file f.ty e w h1 hg.1.2 hv
                     have e1' := redirect_sound (typ := typ) h1 hg.1.1 e1
-                    have e2 := rm_sound r file gv st rest ws h2 hsr hg.2 hvs
+                    have e2 := rm_sound r file st rest ws h2 hg.2 hvs
                     simp [evalGoEnts, e1', e2]
 end
 
@@ -1025,6 +1336,7 @@ end main
 end Gen.Defaults
 
 namespace Gen.Defaults
+
 theorem findConst_hasGlobal {E : Env} {f : Nat} {n : Name} {c : AConst} (h : E.findConst f n = some c) :
     E.hasGlobal f n = true := by
   unfold Env.findConst at h
@@ -1054,99 +1366,12 @@ theorem envAgree (E : Env) (hacc : Accepted E) (hgood : EnvGood E) :
         simp only [hc] at h ⊢
         obtain ⟨e, he⟩ := hacc f n c hc
         simp only [he]
-        exact rc_sound ih f c.val f f c.ty e v he (Or.inl rfl) (hgood f n c hc) h
+        exact rc_sound ih f f c.val f c.ty e v he (hgood f n c hc) h
     · intro f n v h
       simp only [idlEnvOf] at h
       cases hc : E.findConst f n with
       | none => simp [hc] at h
       | some c => exact findConst_hasGlobal hc
-
-end Gen.Defaults
-
-namespace Gen.Defaults
-
-theorem escQ_cons_quote (r : Bytes) : escQ (34 :: r) = 92 :: 34 :: escQ r := by simp [escQ]
-theorem escQ_cons_other {c : Nat} (h : c ≠ 34) (r : Bytes) : escQ (c :: r) = c :: escQ r := by simp [escQ, h]
-
-/-- `strings.ReplaceAll(s, "\"", "\\\"")` as a map over characters -/
-theorem escQ_eq_flatMap (s : Bytes) : escQ s = s.flatMap (fun c => if c = 34 then [92, 34] else [c]) := by
-  induction s with
-  | nil => rfl
-  | cons c r ih =>
-    by_cases h : c = 34
-    · subst h; simp [escQ, ih]
-    · simp [escQ, h, ih]
-
-theorem lexStep_num_quote {b r a : Nat} {u : Bool} : lexStep (.num b r a u) 34 = none := by
-  simp only [lexStep]
-  split <;> simp_all [hexDigit?, octDigit?]
-
-theorem lexStep_num_bslash {b r a : Nat} {u : Bool} : lexStep (.num b r a u) 92 = none := by
-  simp only [lexStep]
-  split <;> simp_all [hexDigit?, octDigit?]
-
-/-- simulation: reading the emitted text (every quote escaped, closing quote appended) from any scanner state
-    is reading the literal itself -/
-theorem unqFrom_emit : ∀ (s : Bytes) (st : LexSt), litSafe st s = true → unqFrom st (escQ s ++ [34]) = interpFrom st s
-  | [], st, _ => by
-    simp only [escQ, List.nil_append, unqFrom, interpFrom]
-    cases st with
-    | norm => simp
-    | esc => simp [lexStep]
-    | num b r a u => simp [lexStep_num_quote]
-  | c :: r, st, h => by
-    by_cases hq : c = 34
-    · subst hq
-      rw [escQ_cons_quote]
-      cases st with
-      | norm =>
-        have hr : litSafe .norm r = true := by
-          simpa [litSafe, lexStep] using h
-        have ih := unqFrom_emit r .norm hr
-        simp only [List.cons_append, unqFrom, interpFrom, lexStep]
-        simp [ih]
-        rfl
-      | esc => simp [litSafe] at h
-      | num b k a u =>
-        simp only [List.cons_append, unqFrom, interpFrom, lexStep_num_quote, lexStep_num_bslash]
-        simp
-    · rw [escQ_cons_other hq]
-      simp only [List.cons_append, unqFrom, interpFrom]
-      have hn : ¬(st = .norm ∧ c = 34) := fun hh => hq hh.2
-      have hnl : ¬(st = .norm ∧ c = 10) := by
-        intro hh
-        simp [litSafe, hh.1, hh.2] at h
-      simp only [hn, hnl, if_false]
-      cases hl : lexStep st c with
-      | none => rfl
-      | some p =>
-        obtain ⟨st', out⟩ := p
-        have hr : litSafe st' r = true := by
-          have : ¬(st = .esc ∧ c = 34) := fun hh => hq hh.2
-          simpa [litSafe, this, hnl, hl] using h
-        simp only [unqFrom_emit r st' hr]
-
-/-- string_literal_emission, semantic part -/
-theorem goUnquote_emit {s : Bytes} (h : litSafe .norm s = true) : goUnquote (emitStr s) = interp s := by
-  simp only [goUnquote, emitStr, interp]
-  exact unqFrom_emit s .norm h
-
-theorem litOK_of_safe {s : Bytes} (h : litSafe .norm s = true) : litOK s = true := by
-  simp [litOK, goUnquote_emit h]
-
-/-- a literal without backslash and newline is safe and means itself -/
-theorem plain_safe : ∀ (s : Bytes), (∀ c ∈ s, c ≠ 92 ∧ c ≠ 10) → litSafe .norm s = true ∧ interpFrom .norm s = some s
-  | [], _ => by simp [litSafe, interpFrom]
-  | c :: r, h => by
-    have hc := h c (List.mem_cons_self)
-    have hr := plain_safe r (fun x hx => h x (List.mem_cons_of_mem _ hx))
-    constructor
-    · simp [litSafe, lexStep, hc.1, hc.2, hr.1]
-    · simp [interpFrom, lexStep, hc.1, hr.2]
-
-theorem goUnquote_emit_plain {s : Bytes} (h : ∀ c ∈ s, c ≠ 92 ∧ c ≠ 10) : goUnquote (emitStr s) = some s := by
-  rw [goUnquote_emit (plain_safe s h).1]
-  exact (plain_safe s h).2
 
 end Gen.Defaults
 
@@ -1209,8 +1434,8 @@ theorem onDouble_isOk (E : Env) (g : Nat) (v : CV) :
         rcases getID_cases E g x with ⟨r, h⟩ | h | h <;> simp [h, resOk]
   | _ => simp [onDouble, resOk]
 
-theorem onInt_isOk (E : Env) (root g : Nat) (t : ATy) (v : CV) :
-    resOk (onInt E root g t v) = accInt E root g t v := by
+theorem onInt_isOk (E : Env) (root g gv : Nat) (t : ATy) (v : CV) :
+    resOk (onInt E root g gv t v) = accInt E root g gv t v := by
   unfold accInt
   cases v with
   | ident s x =>
@@ -1220,7 +1445,7 @@ theorem onInt_isOk (E : Env) (root g : Nat) (t : ATy) (v : CV) :
     · by_cases h2 : s = bFalse
       · simp [h2, resOk, bFalse_ne_bTrue]
       · simp only [h1, h2, if_false]
-        rcases getID_cases E g x with ⟨r, h⟩ | h | h
+        rcases getID_cases E gv x with ⟨r, h⟩ | h | h
         · cases htn : typeName E root g t <;> simp [h, resOk, noPanic]
         · simp [h, resOk]
         · simp [h, resOk]
@@ -1255,38 +1480,37 @@ theorem onStrBin_isOk (E : Env) (g : Nat) (t : ATy) (v : CV) :
   | panic => rfl
 
 /-- scalars: thriftgo accepts exactly the kinds of the catalogue -/
-theorem scalar_isOk (E : Env) (root g : Nat) (t : ATy) (v : CV)
+theorem scalar_isOk (E : Env) (root gv g : Nat) (t : ATy) (v : CV)
     (hsc : t.cat ≠ .list ∧ t.cat ≠ .set ∧ t.cat ≠ .map ∧ t.cat ≠ .strct) :
-    resOk (resolveConst E root g t v) = accScalar E root g t v := by
+    resOk (resolveConst E root gv g t v) = accScalar E root gv g t v := by
   rw [resolveConst.eq_def]
   unfold accScalar
   cases hc : t.cat with
-  | bool => simp only [hc]; exact onBool_isOk E g v
+  | bool => simp only [hc]; exact onBool_isOk E gv v
   | i8 => simp only [hc]; rw [onInt_isOk]
   | i16 => simp only [hc]; rw [onInt_isOk]
   | i32 => simp only [hc]; rw [onInt_isOk]
   | i64 => simp only [hc]; rw [onInt_isOk]
-  | dbl => simp only [hc]; exact onDouble_isOk E g v
-  | str => simp only [hc]; exact onStrBin_isOk E g t v
-  | bin => simp only [hc]; exact onStrBin_isOk E g t v
-  | enum => simp only [hc]; exact onEnum_isOk E g v
+  | dbl => simp only [hc]; exact onDouble_isOk E gv v
+  | str => simp only [hc]; exact onStrBin_isOk E gv t v
+  | bin => simp only [hc]; exact onStrBin_isOk E gv t v
+  | enum => simp only [hc]; exact onEnum_isOk E gv v
   | list => exact absurd hc hsc.1
   | set => exact absurd hc hsc.2.1
   | map => exact absurd hc hsc.2.2.1
   | strct => exact absurd hc hsc.2.2.2
 
-
-theorem accepts_scalar (E : Env) (root g : Nat) (t : ATy) (v : CV)
+theorem accepts_scalar (E : Env) (root gv g : Nat) (t : ATy) (v : CV)
     (hsc : t.cat ≠ .list ∧ t.cat ≠ .set ∧ t.cat ≠ .map ∧ t.cat ≠ .strct) :
-    accepts E root g t v = accScalar E root g t v := by
+    accepts E root gv g t v = accScalar E root gv g t v := by
   rw [accepts.eq_def]
   cases hc : t.cat <;> simp_all
 
 /-- composite types with a leaf initializer (number, literal, identifier) -/
-theorem leaf_isOk (E : Env) (root g : Nat) (t : ATy) (v : CV) (hl : v.isLeaf = true) :
-    resOk (resolveConst E root g t v) = accepts E root g t v := by
+theorem leaf_isOk (E : Env) (root gv g : Nat) (t : ATy) (v : CV) (hl : v.isLeaf = true) :
+    resOk (resolveConst E root gv g t v) = accepts E root gv g t v := by
   by_cases hsc : t.cat ≠ .list ∧ t.cat ≠ .set ∧ t.cat ≠ .map ∧ t.cat ≠ .strct
-  · rw [scalar_isOk E root g t v hsc, accepts_scalar E root g t v hsc]
+  · rw [scalar_isOk E root gv g t v hsc, accepts_scalar E root gv g t v hsc]
   · rw [resolveConst.eq_def, accepts.eq_def]
     have hcomp : t.cat = .list ∨ t.cat = .set ∨ t.cat = .map ∨ t.cat = .strct := by
       cases hc : t.cat <;> simp_all
@@ -1297,61 +1521,112 @@ theorem leaf_isOk (E : Env) (root g : Nat) (t : ATy) (v : CV) (hl : v.isLeaf = t
       | err => simp [resOk]
       | panic => simp [resOk]
       | ok ty =>
-        cases v with
-        | list xs => simp [CV.isLeaf] at hl
-        | map kvs => simp [CV.isLeaf] at hl
-        | ident s x =>
-          simp only [idPanics, idResolves]
-          rcases getID_cases E g x with ⟨r, h⟩ | h | h <;> simp [h, resOk]
-        | int n => simp [resOk]
-        | dbl b tx => simp [resOk]
-        | lit s => simp [resOk]
+        first
+          | (cases hd : derefC E g t with
+             | err => simp [resOk]
+             | panic => simp [resOk]
+             | ok p =>
+               cases v with
+               | list xs => simp [CV.isLeaf] at hl
+               | map kvs => simp [CV.isLeaf] at hl
+               | ident s x =>
+                 simp only [idPanics, idResolves]
+                 rcases getID_cases E gv x with ⟨r, h⟩ | h | h <;> simp [h, resOk]
+               | int n => simp [resOk]
+               | dbl b tx => simp [resOk]
+               | lit s => simp [resOk])
+          | (cases v with
+             | list xs => simp [CV.isLeaf] at hl
+             | map kvs => simp [CV.isLeaf] at hl
+             | ident s x =>
+               simp only [idPanics, idResolves]
+               rcases getID_cases E gv x with ⟨r, h⟩ | h | h <;> simp [h, resOk]
+             | int n => simp [resOk]
+             | dbl b tx => simp [resOk]
+             | lit s => simp [resOk])
 
 section acc
-variable (E : Env) (root : Nat)
+variable (E : Env) (root gv : Nat)
 
 mutual
-theorem rc_isOk : ∀ (v : CV) (g : Nat) (t : ATy), resOk (resolveConst E root g t v) = accepts E root g t v
-  | .int n, g, t => leaf_isOk E root g t _ rfl
-  | .dbl b tx, g, t => leaf_isOk E root g t _ rfl
-  | .lit s, g, t => leaf_isOk E root g t _ rfl
-  | .ident s x, g, t => leaf_isOk E root g t _ rfl
+theorem rc_isOk : ∀ (v : CV) (g : Nat) (t : ATy), resOk (resolveConst E root gv g t v) = accepts E root gv g t v
+  | .int n, g, t => leaf_isOk E root gv g t _ rfl
+  | .dbl b tx, g, t => leaf_isOk E root gv g t _ rfl
+  | .lit s, g, t => leaf_isOk E root gv g t _ rfl
+  | .ident s x, g, t => leaf_isOk E root gv g t _ rfl
   | .list xs, g, t => by
       by_cases hsc : t.cat ≠ .list ∧ t.cat ≠ .set ∧ t.cat ≠ .map ∧ t.cat ≠ .strct
-      · rw [scalar_isOk E root g t _ hsc, accepts_scalar E root g t _ hsc]
+      · rw [scalar_isOk E root gv g t _ hsc, accepts_scalar E root gv g t _ hsc]
       · rw [resolveConst.eq_def, accepts.eq_def]
-        have ih := rl_isOk xs g t.elem?
         have hcomp : t.cat = .list ∨ t.cat = .set ∨ t.cat = .map ∨ t.cat = .strct := by
           cases hc : t.cat <;> simp_all
         rcases hcomp with hc | hc | hc | hc
-        all_goals
-          simp only [hc]
+        · simp only [hc]
           cases htn : typeName E root g t with
           | err => simp [resOk]
           | panic => simp [resOk]
           | ok ty =>
-            first
-              | (rw [← ih]; cases resolveList E root g t.elem? xs <;> simp [resOk])
-              | simp [resOk]
+            cases hd : derefC E g t with
+            | err => simp [resOk]
+            | panic => simp [resOk]
+            | ok p =>
+              obtain ⟨g', t'⟩ := p
+              have ih := rl_isOk xs g' t'.elem?
+              simp only []
+              rw [← ih]
+              cases resolveList E root gv g' t'.elem? xs <;> simp [resOk]
+        · simp only [hc]
+          cases htn : typeName E root g t with
+          | err => simp [resOk]
+          | panic => simp [resOk]
+          | ok ty =>
+            cases hd : derefC E g t with
+            | err => simp [resOk]
+            | panic => simp [resOk]
+            | ok p =>
+              obtain ⟨g', t'⟩ := p
+              have ih := rl_isOk xs g' t'.elem?
+              simp only []
+              rw [← ih]
+              cases resolveList E root gv g' t'.elem? xs <;> simp [resOk]
+        · simp only [hc]
+          cases htn : typeName E root g t with
+          | err => simp [resOk]
+          | panic => simp [resOk]
+          | ok ty => cases hd : derefC E g t <;> simp [resOk]
+        · simp only [hc]
+          cases htn : typeName E root g t <;> simp [resOk]
   | .map kvs, g, t => by
       by_cases hsc : t.cat ≠ .list ∧ t.cat ≠ .set ∧ t.cat ≠ .map ∧ t.cat ≠ .strct
-      · rw [scalar_isOk E root g t _ hsc, accepts_scalar E root g t _ hsc]
+      · rw [scalar_isOk E root gv g t _ hsc, accepts_scalar E root gv g t _ hsc]
       · rw [resolveConst.eq_def, accepts.eq_def]
-        have ihp := rp_isOk kvs g (t.key?.map bin2str) t.elem?
         have hcomp : t.cat = .list ∨ t.cat = .set ∨ t.cat = .map ∨ t.cat = .strct := by
           cases hc : t.cat <;> simp_all
         rcases hcomp with hc | hc | hc | hc
         · simp only [hc]
-          cases htn : typeName E root g t <;> simp [resOk]
+          cases htn : typeName E root g t with
+          | err => simp [resOk]
+          | panic => simp [resOk]
+          | ok ty => cases hd : derefC E g t <;> simp [resOk]
         · simp only [hc]
-          cases htn : typeName E root g t <;> simp [resOk]
+          cases htn : typeName E root g t with
+          | err => simp [resOk]
+          | panic => simp [resOk]
+          | ok ty => cases hd : derefC E g t <;> simp [resOk]
         · simp only [hc]
           cases htn : typeName E root g t with
           | err => simp [resOk]
           | panic => simp [resOk]
           | ok ty =>
-            rw [← ihp]
-            cases resolvePairs E root g (t.key?.map bin2str) t.elem? kvs <;> simp [resOk]
+            cases hd : derefC E g t with
+            | err => simp [resOk]
+            | panic => simp [resOk]
+            | ok p =>
+              obtain ⟨g', t'⟩ := p
+              have ihp := rp_isOk kvs g' t'.key? t'.elem?
+              simp only []
+              rw [← ihp]
+              cases resolvePairs E root gv g' t'.key? t'.elem? kvs <;> simp [resOk]
         · simp only [hc]
           cases htn : typeName E root g t with
           | err => simp [resOk]
@@ -1365,8 +1640,8 @@ theorem rc_isOk : ∀ (v : CV) (g : Nat) (t : ATy), resOk (resolveConst E root g
               have ihm := rm_isOk kvs file st
               simp only []
               rw [← ihm]
-              cases resolveMembers E root file st kvs <;> simp [resOk]
-theorem rl_isOk : ∀ (xs : List CV) (g : Nat) (et : Option ATy), resOk (resolveList E root g et xs) = acceptsL E root g et xs
+              cases resolveMembers E root gv file st kvs <;> simp [resOk]
+theorem rl_isOk : ∀ (xs : List CV) (g : Nat) (et : Option ATy), resOk (resolveList E root gv g et xs) = acceptsL E root gv g et xs
   | [], g, et => by simp [resolveList, acceptsL, resOk]
   | x :: r, g, none => by simp [resolveList, acceptsL, resOk]
   | x :: r, g, some e => by
@@ -1374,31 +1649,31 @@ theorem rl_isOk : ∀ (xs : List CV) (g : Nat) (et : Option ATy), resOk (resolve
       have h2 := rl_isOk r g (some e)
       simp only [resolveList, acceptsL]
       rw [← h1, ← h2]
-      cases resolveConst E root g e x with
+      cases resolveConst E root gv g e x with
       | err => simp [resOk]
       | panic => simp [resOk]
-      | ok a => cases resolveList E root g (some e) r <;> simp [resOk]
+      | ok a => cases resolveList E root gv g (some e) r <;> simp [resOk]
 theorem rp_isOk : ∀ (kvs : List (CV × CV)) (g : Nat) (kt vt : Option ATy),
-    resOk (resolvePairs E root g kt vt kvs) = acceptsP E root g kt vt kvs
+    resOk (resolvePairs E root gv g kt vt kvs) = acceptsP E root gv g kt vt kvs
   | [], g, kt, vt => by simp [resolvePairs, acceptsP, resOk]
   | (k, v) :: r, g, some kt, some vt => by
-      have h1 := rc_isOk k g kt
+      have h1 := rc_isOk k g (bin2str kt)
       have h2 := rc_isOk v g vt
       have h3 := rp_isOk r g (some kt) (some vt)
       simp only [resolvePairs, acceptsP]
       rw [← h1, ← h2, ← h3]
-      cases resolveConst E root g kt k with
+      cases resolveConst E root gv g (bin2str kt) k with
       | err => simp [resOk]
       | panic => simp [resOk]
       | ok a =>
-        cases resolveConst E root g vt v with
+        cases resolveConst E root gv g vt v with
         | err => simp [resOk]
         | panic => simp [resOk]
-        | ok b => cases resolvePairs E root g (some kt) (some vt) r <;> simp [resOk]
+        | ok b => cases resolvePairs E root gv g (some kt) (some vt) r <;> simp [resOk]
   | (k, v) :: r, g, none, vt => by simp [resolvePairs, acceptsP, resOk]
   | (k, v) :: r, g, some kt, none => by simp [resolvePairs, acceptsP, resOk]
 theorem rm_isOk : ∀ (kvs : List (CV × CV)) (file : Nat) (st : AStruct),
-    resOk (resolveMembers E root file st kvs) = acceptsM E root file st kvs
+    resOk (resolveMembers E root gv file st kvs) = acceptsM E root gv file st kvs
   | [], file, st => by simp [resolveMembers, acceptsM, resOk]
   | (k, v) :: r, file, st => by
       have h3 := rm_isOk r file st
@@ -1416,10 +1691,10 @@ theorem rm_isOk : ∀ (kvs : List (CV × CV)) (file : Nat) (st : AStruct),
           | err => simp [resOk]
           | panic => simp [resOk]
           | ok typ =>
-            cases resolveConst E root file f.ty v with
+            cases resolveConst E root gv file f.ty v with
             | err => simp [resOk]
             | panic => simp [resOk]
-            | ok e => cases resolveMembers E root file st r <;> simp [resOk]
+            | ok e => cases resolveMembers E root gv file st r <;> simp [resOk]
       | int n => simp [resolveMembers, acceptsM, resOk]
       | dbl b tx => simp [resolveMembers, acceptsM, resOk]
       | ident s x => simp [resolveMembers, acceptsM, resOk]
